@@ -175,6 +175,19 @@ def axiom_audit(pid, prop_modules, extra_imports=()):
     return ok, {"theorems": thms, "axioms": report, "bad": bad, "missing": missing, "raw": out if not ok else ""}
 
 
+def leanchecker(modules, timeout=3000):
+    """Lean's independent re-checker of compiled .olean files (replays every declaration through the kernel)."""
+    try:
+        r = subprocess.run(["lake", "env", "leanchecker"] + list(modules), cwd=LEAN, stdout=subprocess.PIPE,
+                           stderr=subprocess.STDOUT, text=True, timeout=timeout)
+    except subprocess.TimeoutExpired:
+        raise InfraError("leanchecker timed out")
+    except FileNotFoundError:
+        raise InfraError("leanchecker not found")
+    log("[lean] leanchecker %s: rc=%d" % (" ".join(modules), r.returncode))
+    return r.returncode == 0, r.stdout
+
+
 class Model:
     """Line-protocol connection to the Lean driver (lake env lean --run Main.lean)."""
 
